@@ -229,7 +229,10 @@ func runCorrupt(c *corr.Ctx) error {
 			}
 		}
 	}
+	if err := sstFlipCases(c, root); err != nil {
+		return err
+	}
 	c.Meta("exhaustive", true)
-	c.Meta("exhaustive_scope", "all single-bit flip positions of each generated WAL segment and entry record")
+	c.Meta("exhaustive_scope", "all single-bit flip positions of each generated WAL segment, entry record and SST file")
 	return nil
 }
